@@ -263,6 +263,19 @@ let pairs toks =
 let hexrt h = match hex_dec (hex_enc (bytes_of_hex h)) with Some b -> "ok " ^ hex_of_bytes b | None -> "none"
 let unhex s = match hex_dec (bytes_of_hex s) with Some b -> "ok " ^ hex_of_bytes b | None -> "none"
 
+(* cmap <initial map object> <ops array>: ops = ["u", id, entry] | ["d", id]; answers the final map *)
+let cmap_cmd toks =
+  let (m0, rest) = parse_jv toks in
+  let (ops, _) = parse_jv rest in
+  let m0 = match m0 with JObj kv -> kv | _ -> raise (Unmodelled "map is not an object") in
+  let ops = match ops with
+    | JArr l -> Stdlib.List.map (function
+        | JArr [JStr u; JStr id; e] when u = str "u" -> CUpdate (id, e)
+        | JArr [JStr d; JStr id] when d = str "d" -> CDelete id
+        | _ -> raise (Unmodelled "cache op")) l
+    | _ -> raise (Unmodelled "ops is not a list") in
+  "ok" ^ jv_str (JObj (map_run ops m0))
+
 let guarded f toks = try f toks with Unmodelled m -> "unmodelled " ^ m
 
 let handle = function
@@ -271,6 +284,7 @@ let handle = function
   | "rt" :: toks -> guarded rt toks
   | "entry" :: toks -> guarded entry toks
   | "pairs" :: toks -> guarded pairs toks
+  | "cmap" :: toks -> guarded cmap_cmd toks
   | ["hexrt"; h] -> hexrt h
   | ["unhex"; s] -> unhex s
   | _ -> "bad-request"
